@@ -339,7 +339,7 @@ fn ebs(scheme: Scheme, thorough: bool) -> Vec<(u16, u16)> {
         v.extend([(1, 4), (2, 5), (3, 8), (4, 7)]);
     }
     if thorough {
-        v.extend([(5, 3), (16, 2), (2, 9), (7, 5), (16, 4), (1, 7)]);
+        v.extend([(5, 3), (16, 2), (2, 9), (7, 5), (16, 4), (1, 7), (32, 2), (3, 5), (6, 6), (64, 3), (9, 2)]);
     }
     v
 }
@@ -356,7 +356,7 @@ fn core_grid(thorough: bool) -> Vec<Case> {
                 vec![1, 2, 3]
             };
             for parity in parities {
-                let lmax = (if thorough { 5 } else { 3 }) * e as usize * b as usize + 2;
+                let lmax = (if thorough { 7 } else { 3 }) * e as usize * b as usize + 2;
                 for len in 0..=lmax {
                     let cencs: Vec<u8> = if thorough { vec![0, 1, 2, 3] } else if len % 3 == 0 { vec![0, 3, 1] } else { vec![0, 2] };
                     for cenc in cencs {
